@@ -11,7 +11,7 @@
 (* lifetime verdict is given only when it holds for every instant of the    *)
 (* bracket.                                                                 *)
 (***************************************************************************)
-EXTENDS ProxyJudge, Json, IOUtils
+EXTENDS ProxyJudge, ConfigOps, Json, IOUtils
 CONSTANT Focus
 Trace == ndJsonDeserialize(IOEnv.TRACE_FILE)
 VARIABLES l, cfg, answered
@@ -19,6 +19,10 @@ tvars == <<l, cfg, answered>>
 Put(f, k, v) == [x \in DOMAIN f \cup {k} |-> IF x = k THEN v ELSE f[x]]
 Drop(f, k) == [x \in DOMAIN f \ {k} |-> f[x]]
 MaxI(a, b) == IF a > b THEN a ELSE b
+MinI(a, b) == IF a < b THEN a ELSE b
+\* the dialog timeout in microseconds (capped like every time value of the trace): given by the bench, or - for a service
+\* started from YAML - computed from the configuration as written
+TimeoutUs == IF "T" \in DOMAIN cfg THEN cfg.T ELSE 1000000 * MinI(1000, MaxI(0, EffTimeout(cfg.timeout_cfg)))
 
 FromE(m) == m.hdrs[FirstPos(m.hdrs, "from")].ents[1]
 ToE(m) == m.hdrs[FirstPos(m.hdrs, "to")].ents[1]
@@ -56,9 +60,9 @@ Update(e) ==
     LET m == e.inmsg IN
     IF e.panic # "" \/ ~HasDlg(m) THEN answered
     ELSE IF m.kind = "resp" /\ m.method = "INVITE" /\ SrcAddr(e) \in Backs
-    THEN Put(answered, Dlg(m), [b |-> SrcAddr(e), lo |-> e.t0, hi |-> e.t1, life |-> MaxI(cfg.T, e.expires), maybe |-> FALSE])
+    THEN Put(answered, Dlg(m), [b |-> SrcAddr(e), lo |-> e.t0, hi |-> e.t1, life |-> MaxI(TimeoutUs, e.expires), maybe |-> FALSE])
     ELSE IF m.kind = "resp" /\ m.method = "SUBSCRIBE" /\ Len(e.outs) = 1 /\ e.outs[1].addr \in Backs
-    THEN Put(answered, Dlg(m), [b |-> e.outs[1].addr, lo |-> e.t0, hi |-> e.t1, life |-> MaxI(cfg.T, e.expires), maybe |-> FALSE])
+    THEN Put(answered, Dlg(m), [b |-> e.outs[1].addr, lo |-> e.t0, hi |-> e.t1, life |-> MaxI(TimeoutUs, e.expires), maybe |-> FALSE])
     ELSE IF m.kind = "resp" /\ m.method = "BYE" /\ SrcAddr(e) \in Backs THEN Drop(answered, Dlg(m))
     ELSE IF m.kind = "req" /\ m.method = "NOTIFY" /\ Dispatched(e) /\ Dlg(m) \in DOMAIN answered
     THEN (IF SubState(m) = "terminated" THEN Drop(answered, Dlg(m))
